@@ -15,6 +15,10 @@ import (
 	"github.com/go-logr/stdr"
 )
 
+// realStderr keeps file descriptor 2 open (an unreferenced *os.File is closed by its finalizer, and the
+// runtime's panic traces would be lost with it)
+var realStderr = os.Stderr
+
 func init() {
 	// the server package raises the global stdr verbosity when it is loaded
 	stdr.SetVerbosity(0)
